@@ -21,6 +21,8 @@ func normIdx(s string) string { return loopIdx.ReplaceAllString(s, "[*]") }
 // ValidatedFacts explores a message's ValidateBasic with the effect explorer and returns the
 // facts common to all accepting paths: at top level, and inside each loop iteration.
 type Validated struct {
+	ExitPaths []map[string]bool // fact sets of the individual accepting paths (loop indices normalised)
+	IterPaths []map[string]bool
 	Exit map[string]bool
 	Iter map[string]bool // facts holding in every accepted iteration (loop indices normalised)
 	OK   bool
@@ -49,7 +51,9 @@ func ValidatedFacts(m *Model, x *Explorer, ep *EntryPoint) *Validated {
 			recv = &SymPtr{Base: "req", T: ep.Req}
 		}
 	}
+	x.validatorMode = true
 	outs := x.Explore(fn, []Val{recv})
+	x.validatorMode = false
 	if os.Getenv("E1DEBUG") != "" {
 		fmt.Printf("DBG validate %s: %d outcomes in %v\n", key, len(outs), time.Since(t0))
 	}
@@ -76,8 +80,10 @@ func ValidatedFacts(m *Model, x *Explorer, ep *EntryPoint) *Validated {
 		switch {
 		case o.Kind == exitReturn && o.Commit:
 			inter(v.Exit, &fe, o.St.facts)
+			v.ExitPaths = append(v.ExitPaths, factMap(o.St.facts))
 		case o.Kind == exitLoopback:
 			inter(v.Iter, &fi, o.St.facts)
+			v.IterPaths = append(v.IterPaths, factMap(o.St.facts))
 		}
 	}
 	v.OK = !fe
@@ -424,4 +430,12 @@ func marketDenom(st *State, v Val) string {
 		}
 	}
 	return ""
+}
+
+func factMap(facts []string) map[string]bool {
+	m := map[string]bool{}
+	for _, f := range facts {
+		m[normIdx(f)] = true
+	}
+	return m
 }
